@@ -13,6 +13,7 @@ import (
 	"os/exec"
 	"path/filepath"
 	"runtime"
+	"runtime/debug"
 	"runtime/pprof"
 	"sort"
 	"strconv"
@@ -26,6 +27,9 @@ import (
 )
 
 func main() {
+	// an invalid memory access inside proxy code (e.g. a write into read-only memory) becomes a panic that the
+	// harness recovers as "the proxy crashed", instead of killing this process
+	debug.SetPanicOnFault(true)
 	if len(os.Args) < 2 {
 		fmt.Fprintln(os.Stderr, "usage: vworker check|run|replay ...")
 		os.Exit(2)
@@ -96,6 +100,9 @@ func runShard(args []string) (code int) {
 		return 2
 	}
 	runtime.GOMAXPROCS(2)
+	// an invalid memory access inside proxy code (e.g. a write into read-only memory) becomes a panic that the
+	// harness recovers as "the proxy crashed", instead of killing the worker
+	debug.SetPanicOnFault(true)
 	if pf := os.Getenv("VERIF_PROF"); pf != "" {
 		f, _ := os.Create(pf)
 		pprof.StartCPUProfile(f)
